@@ -725,6 +725,17 @@ func genMessage(rng *rand.Rand, md protoreflect.MessageDescriptor, mode genMode,
 			} else {
 				v = genScalar(rng, f.MapValue(), mode)
 			}
+			// one entry per map (the order of several entries is unspecified in protobuf and the modules' family does not sort
+			// them, so byte equality is only meaningful for one entry): sometimes a zero value under a non-zero key or a value
+			// under the zero key - an entry's key and value are both always written, whatever they are
+			if f.MapValue().Kind() != protoreflect.MessageKind {
+				switch rng.Intn(4) {
+				case 0:
+					v = genScalar(rng, f.MapValue(), modeZero)
+				case 1:
+					k = genScalar(rng, f.MapKey(), modeZero)
+				}
+			}
 			mp.Set(k.MapKey(), v)
 		case f.IsList():
 			if mode == modeZero {
